@@ -8,6 +8,7 @@ sys.path.insert(0, os.path.dirname(os.path.abspath(__file__)))
 TRANSLATORS = [
     ('sdof_coeffs', 'py2coq_scalar', 'regenerate'),
     ('design_spectra', 'py2coq_design', 'regenerate'),
+    ('effects_ir', 'py2ir_effects', 'regenerate'),
 ]
 
 
